@@ -243,8 +243,8 @@ def run_harness(mode, cases_path, trace_path, timeout=3000, args=None):
     with open(cases_path) as fi:
         n = sum(1 for _ in fi)
     k = max(1, min(NCPU, n // 400))
-    if k == 1 or mode not in ("cases", "fault"):
-        if mode in ("cases", "fault"):
+    if k == 1 or mode not in ("cases", "fault", "meta"):
+        if mode in ("cases", "fault", "meta"):
             bad = _harness_part(mode, cases_path, trace_path, args, deadline)
             if bad:
                 raise ToolError(bad)
